@@ -313,6 +313,20 @@ def do_op(s, mc, op, rng):
         mc.up_seq = (mc.up_seq + 1) & 7
         mc.query(mc.data_labels(mc.up_seq, 0, 1, proto.deflate(f)))
         k.run(k.now + rng.choice([2000, 5000, 12000]))
+        if rng.random() < 0.5:
+            # variant: a second small upstream packet follows at once (the first data query is now the one parked for the
+            # send-real-soon sweep), and the relay repeats that *data* query with a new id before the sweep answers it
+            f2 = mk_frame(s, mc, "up", rng, size=rng.choice([32, 40]))
+            s.sent_up.append(f2)
+            mc.up_seq = (mc.up_seq + 1) & 7
+            mc.query(mc.data_labels(mc.up_seq, 0, 1, proto.deflate(f2)))
+            k.run(k.now + rng.choice([500, 2000, 6000]))
+            mc.redeliver(back=2, new_id=True, sport=rng.choice([None, None, 40001]))
+            k.run(k.now + 40000)
+            mc.drain()
+            mc.ping(wait_us=30000)
+            mc.ping(wait_us=30000)
+            return
         for _ in range(rng.randint(1, 2)):
             mc.redeliver(back=2, new_id=True, sport=rng.choice([None, None, 40001]))
             k.run(k.now + rng.choice([500, 3000]))
